@@ -21,3 +21,11 @@ func VerifIlen[T comparable](m Map[T], key T) int {
 	}
 	return int(it.ilen)
 }
+
+// VerifHoldMapLock takes the map's global lock and returns the function that releases it: callers
+// of Lock/Unlock queue on it in FIFO order meanwhile.
+func VerifHoldMapLock[T comparable](m Map[T]) func() {
+	a := m.(*fifoMap[T])
+	a.lock.Lock()
+	return a.lock.Unlock
+}
